@@ -354,6 +354,7 @@ func sourcesExternalWorker(w *vf.Worker) {
 					write("sp ace."+c.ext+".gz", b)
 					write("quo'te."+c.ext+".gz", b)
 					write("dq\"uote."+c.ext+".gz", b)
+					write("me$ta;ch&ar."+c.ext+".gz", b)
 				}
 			}
 			plainNamedGz := write("plain-named."+c.ext+".gz", []byte(c.text))
@@ -398,6 +399,8 @@ func sourcesExternalWorker(w *vf.Worker) {
 				add(extSource{name: "prepipe-name-space", flags: []string{"--prepipe", "gunzip"}, files: []string{filepath.Join(dir, "sp ace."+c.ext+".gz")}})
 				add(extSource{name: "prepipe-name-squote", flags: []string{"--prepipe", "gunzip"}, files: []string{filepath.Join(dir, "quo'te."+c.ext+".gz")}})
 				add(extSource{name: "prepipe-name-dquote", flags: []string{"--prepipe", "gunzip"}, files: []string{filepath.Join(dir, "dq\"uote."+c.ext+".gz")}})
+				add(extSource{name: "prepipe-name-metachar", flags: []string{"--prepipe", "gunzip"}, files: []string{filepath.Join(dir, "me$ta;ch&ar."+c.ext+".gz")}})
+				add(extSource{name: "prepipe-gunzip+stdin", flags: []string{"--prepipe", "gunzip"}, stdin: gz})
 				add(extSource{name: "ext-name-space", files: []string{filepath.Join(dir, "sp ace."+c.ext+".gz")}})
 				add(extSource{name: "ext-name-squote", files: []string{filepath.Join(dir, "quo'te."+c.ext+".gz")}})
 				add(extSource{name: "files-flag", flags: []string{"--files", listFile}, times: 2})
@@ -519,7 +522,7 @@ func sourcesExternalWorker(w *vf.Worker) {
 // symptom names the observable failure shape, so that one root cause lands in one violation group.
 func symptom(exit int, got, want, stderr string, prepipe bool) string {
 	switch {
-	case strings.Contains(stderr, "Unterminated quoted string") || strings.Contains(stderr, "Syntax error"):
+	case strings.Contains(stderr, "Unterminated quoted string") || strings.Contains(stderr, "Syntax error") || strings.Contains(stderr, "cannot open") || strings.Contains(stderr, "not found") || strings.Contains(stderr, "No such file"):
 		return "prepipe-filename-quoting"
 	case exit != 0 && strings.Contains(stderr, "file already closed"):
 		return "prepipe-read-after-close-error"
